@@ -227,7 +227,7 @@ func ruleBasketWho(c *Ctx, m *Model, r *E1) {
 		if !only {
 			why = ": reached without passing through it by " + chain
 		}
-		c.Check(only, "C05.WHO", fk+"#MintCoins", p.Pos(s.Call.Pos()), "MintCoins is called only on call chains through the basket Put handler (the E1 identity EQ5 covers that site)"+why)
+		c.Check(only, "C05.WHO", fk+"#MintCoins", p.Pos(s.At()), "MintCoins is called only on call chains through the basket Put handler (the E1 identity EQ5 covers that site)"+why)
 	}
 	c.Min("MintCoins sites", 1, nMint)
 	// immutable basket identity fields
